@@ -32,5 +32,6 @@ fn run(r: &mut Run) -> Result<(), MachineryError> {
     text_space(r, "C02/sequences-with-hyphens", &[L, SP, HY, OSH, CSI, NL, D], t.pick(4, 6), &g, M_C02, WidthMode::Display, 3)?;
     char_context_space(r, "C02/all-characters-in-context", M_C02, vec![Alg::FirstFit])?;
     escape_scan_space(r, "C02/escape-grammar-scan", M_C02, vec![Alg::FirstFit])?;
+    word_seq_space(r, "C02/word-sequences", M_C02, vec![Alg::FirstFit])?;
     scale::text_scale(r, "C02/long-paragraphs", "C02")
 }
